@@ -99,8 +99,8 @@ func (t *ImmutableTree) VerifyNonMembership(proof *ics23.CommitmentProof, key []
 // existence proof, if that's what it is.
 func (t *ImmutableTree) createExistenceProof(key []byte) (*ics23.ExistenceProof, error) {
 	t.Hash()
-	path, node, err := t.root.PathToLeaf(t, key, t.version+1)
-	nodeVersion := t.version + 1
+	path, node, err := t.root.PathToLeaf(t, key, t.nextVersion())
+	nodeVersion := t.nextVersion()
 	if node.nodeKey != nil {
 		nodeVersion = node.nodeKey.version
 	}
